@@ -137,6 +137,48 @@ func c16Invalidations() []invDev {
 			req.Expiry = req.SigningTime.Add(time.Hour)
 		}
 	}
+	// a CA certificate that is outside its validity at the signing time while the leaf is inside
+	narrowCA := func(r *reqSpec, rs *envenc.RemoteSigner, depth int) (nb, na time.Time) {
+		nb, na = pki.Now.Add(-2*time.Hour), pki.Now.Add(2*time.Hour)
+		rt := pki.RootTmpl("c16 root")
+		it := pki.CATmpl("c16 inter")
+		if depth == 2 {
+			rt.NotBefore, rt.NotAfter = nb, na
+		} else {
+			it.NotBefore, it.NotAfter = nb, na
+		}
+		root := pki.Issue(rt, pki.K("p256-a"), nil, nil)
+		inter := pki.Issue(it, pki.K("p384-a"), root, nil)
+		leaf := pki.Issue(pki.LeafTmpl("c16 leaf under narrow ca"), pki.K(r.keyName), inter, nil)
+		rs.Chain = []*x509.Certificate{leaf.X, inter.X, root.X}
+		return
+	}
+	for _, v := range []struct {
+		n     string
+		depth int
+		after bool
+	}{{"root-NotAfter+1s", 2, true}, {"root-NotBefore-1s", 2, false}, {"intermediate-NotAfter+1s", 1, true}, {"intermediate-NotBefore-1s", 1, false}} {
+		v := v
+		post("signing-time="+v.n+"(leaf valid)", "chain+time+expiry", "", "remote", func(r *reqSpec, req *signature.SignRequest, rs *envenc.RemoteSigner) {
+			nb, na := narrowCA(r, rs, v.depth)
+			if v.after {
+				req.SigningTime = na.Add(time.Second)
+			} else {
+				req.SigningTime = nb.Add(-time.Second)
+			}
+			if !req.Expiry.IsZero() {
+				req.Expiry = req.SigningTime.Add(time.Hour)
+			}
+		})
+	}
+	post("signing-time=root-NotAfter(valid boundary)", "chain+time+expiry", "", "remote", func(r *reqSpec, req *signature.SignRequest, rs *envenc.RemoteSigner) {
+		_, na := narrowCA(r, rs, 2)
+		req.SigningTime = na
+		if !req.Expiry.IsZero() {
+			req.Expiry = req.SigningTime.Add(time.Hour)
+		}
+	})
+	out[len(out)-1].valid = true
 	post("local-signer-chain-root-missing", "chain", "", "local", func(r *reqSpec, req *signature.SignRequest, rs *envenc.RemoteSigner) {
 		ls, err := signature.NewLocalSigner(pki.X509s(chainFor(r.keyName))[:1], pki.K(r.keyName).Priv)
 		if err != nil {
